@@ -450,6 +450,15 @@ pub fn validate(call: &Call, out: &Outcome) -> Vec<(&'static str, String)> {
         Outcome::Ok(v) => v,
     };
     let canon_res = |id: u64| decode(id).map(|c| c.res);
+    // "bit patterns that are not a cell are rejected": a word whose face / quintant field is beyond the last face aliases no cell,
+    // so no call that takes one cell may answer Ok for it - whatever the other arguments are (a target of -1 included)
+    match call {
+        Call::CellToLonLat(id) | Call::Boundary { id, .. } | Call::Parent { id, .. } | Call::Children { id, .. } if alias_cell(*id).is_none() => {
+            bad.push(("C14.accepted_non_cell", format!("{} answered Ok for {:#018x}, whose face / quintant field {} denotes no cell", call.name(), id, id >> 58)));
+            return bad;
+        }
+        _ => {}
+    }
     match call {
         Call::Lookup { res, .. } => {
             if !in_range(*res) {
